@@ -263,6 +263,37 @@ def run(prog: Program, rep, thorough: bool) -> None:
                     probs4.append(f'{what}: a row is recorded although none is due')
                 elif not (isinstance(last, Scalar) and last.rf.equals(A.sym('tlr'))):
                     probs4.append(f'{what}: the time of the last record changes although no row is recorded')
+    # the same "nothing due" cases with a crossing event flagged for the sample (which a plain request does not report):
+    # still no row, and the clock must not move - a clock restarted without a row lets two rows drift more than a time
+    # step apart
+    def raise_event(ev_, func, args, kwargs, st_, self_val):
+        h_ = ev_.hp(st_, self_val.oid)
+        f_ = h_.get('current_flag')
+        if isinstance(f_, Scalar) and f_.rf.is_const():
+            h_['current_flag'] = Scalar(int(f_.rf.const_value()) | flags['ZERO_DOWN'])
+        return NONE
+    ev6 = Evaluator(prog, opaque={'check_mach_crossing'}, hooks={'call:_TrajectoryDataFilter.check_zero_crossing': raise_event})
+    st6 = State()
+    flt6 = _mk_filter(ev6, st6, prog, filter=Scalar(flags['RANGE']))
+    try:
+        tree6, st6 = ev6.run_func(sr, {sr.positional[0]: flt6, sr.positional[1]: C.mk_vec(ev6, st6, prog, 'qx', 'qy', 'qz'),
+                                       sr.positional[2]: C.mk_vec(ev6, st6, prog, 'ux', 'uy', 'uz'),
+                                       sr.positional[3]: S('am'), sr.positional[4]: S('tm')}, st6)
+    except Undecided as exc:
+        raise AnalysisError(f'should_record (a crossing flagged): {exc}') from exc
+    for what, due, env_ in points:
+        if due:
+            continue
+        for leaf in reachable_leaves(tree6, env_):
+            if leaf.kind == 'raise':
+                continue
+            h6 = leaf.state.heap[flt6.oid]
+            last6 = h6.get('time_of_last_record')
+            if isinstance(leaf.value, Inst):
+                probs4.append(f'{what}, a sight-line crossing flagged, plain request: a row is recorded although none is due')
+            elif not (isinstance(last6, Scalar) and last6.rf.equals(A.sym('tlr'))):
+                probs4.append(f'{what}, a sight-line crossing flagged that the plain request does not report: the time of the last '
+                              f'record becomes {last6!r} although no row is recorded, so the next time row comes up to a full step late')
     if n_seen == 0:
         raise AnalysisError('should_record: no path read for the time-step cases')
     for u_ in sorted(set(undec4)):
